@@ -677,9 +677,9 @@ fn run(run: &mut Run) {
     run.rule("Stack family: 1-4 metal layers alternating direction (either first), entry patterns of optional ground/power rails, 1-4 signals and gaps with even widths, written flat or with Repeat groups, offset in {0, -rail/2, small}, overlap in {0, rail width}, with and without every-other-period flipping (palindromic and, in a second sub-check, asymmetric width patterns; tracks numbered in the order their period lists them), layer pitch 1-3 primitive pitches; vias between adjacent metals. Cells: rectangular outlines that are whole periods of every used layer (1 in 12 deliberately not: error required), cuts and assignments at in-range crossings kept clear of each other and of instances with one net per track, leaf-cell instances in all four reflections aligned to whole periods. Oracle (R-tracks): per layer and track, wire pieces + requested cuts + true instance extents tile [0, span]; one via per assignment centred on the crossing; nets on exactly the covering pieces; rails VDD/VSS. Non-trivial = a cut and an assignment and >= 2 metal layers; distinct by hash.");
     run.assume("non-rectangular outlines, odd widths/cut/via sizes, instances not aligned to whole periods, abstract ports are not generated");
     run.min_nontrivial = 100;
-    run.explore("compile", run.tier.pick(200_000, 2_000_000), 700, &main_case);
+    run.explore("compile", run.tier.pick(300_000, 4_000_000), 700, &main_case);
     // flipped layers with asymmetric patterns: tracks are numbered in the order their period lists them
-    run.explore("compile-asymmetric-flip", run.tier.pick(80_000, 600_000), 700, &asym_case);
+    run.explore("compile-asymmetric-flip", run.tier.pick(120_000, 1_500_000), 700, &asym_case);
 }
 fn case(sub: &str) -> Option<Box<CaseFn<'static>>> {
     match sub {
